@@ -57,6 +57,7 @@ class CFG:
                 elif tk == 'SwitchStmt':
                     label = (bid, ('case', s))
                 self.succ[last].append((self.block_in[s], label))
+        self._thread_short_circuits()
         # Exceptional flow is not modelled by clang's CFG (EH edges off): the blocks that dispatch to catch
         # handlers have no predecessor. Make them successors of the function entry, i.e. assume a handler
         # may be entered at any time: handlers then have no dominators from the try body (conservative for
@@ -81,6 +82,68 @@ class CFG:
         self._dom = None
         self._pdom = None
         self._reach = {}
+
+    def _thread_short_circuits(self):
+        """When a condition contains temporaries, clang evaluates `L && R` as a value: the short-circuit
+        edge of L does not go to the if's else-branch but to the block that branches on the whole
+        expression (a join). On that edge the value of the whole condition is already decided; thread
+        the edge to the corresponding successor so that path queries stay exact."""
+        for bid, b in self.blocks.items():
+            if b.get('tk') != 'BinaryOperator' or b.get('term') is None:
+                continue
+            t = Node(self.fn, b['term']).strip()
+            if t.k != 'BinaryOperator' or t.op not in ('&&', '||'):
+                continue
+            last = self.block_last[bid]
+            new = []
+            for (w, lab) in self.succ[last]:
+                tgt = self.V[w].block
+                y = self.blocks[tgt]
+                if lab is None or not isinstance(lab[1], bool) or y.get('cond') is None or len(y['succ']) != 2 or w != self.block_in[tgt]:
+                    new.append((w, lab))
+                    continue
+                way = lab[1]
+                short = (t.op == '&&' and way is False) or (t.op == '||' and way is True)
+                if not short:
+                    new.append((w, lab))
+                    continue
+                root = Node(self.fn, y['cond'])
+                val = self._propagate(t, way, root)
+                if val is None or y['succ'][0 if val else 1] is None:
+                    new.append((w, lab))
+                    continue
+                new.append((self.block_in[y['succ'][0 if val else 1]], lab))
+            self.succ[last] = new
+
+    def _propagate(self, t, v, root):
+        """value of `root` given that its sub-expression `t` has value v and evaluation went straight
+        from t to the branch on root (nothing else evaluated in between); None if not determined"""
+        cur = t
+        parents = self.fn.parents
+        while True:
+            if cur.i == root.i or cur.i == root.strip().i:
+                return v
+            p = parents.get(cur.i)
+            if p is None:
+                return None
+            pn = Node(self.fn, p)
+            if pn.k in ('ParenExpr', 'ImplicitCastExpr', 'ExprWithCleanups', 'MaterializeTemporaryExpr', 'CXXBindTemporaryExpr'):
+                cur = pn
+                continue
+            if pn.k == 'UnaryOperator' and pn.op == '!':
+                v = not v
+                cur = pn
+                continue
+            if pn.k == 'BinaryOperator' and pn.op in ('&&', '||'):
+                is_lhs = pn.children[0].i == cur.i
+                if is_lhs:
+                    if (pn.op == '||' and v) or (pn.op == '&&' and not v):
+                        cur = pn
+                        continue
+                    return None
+                cur = pn           # RHS: the LHS did not short-circuit, the value is the RHS value
+                continue
+            return None
 
     def _try_body_entry(self, b):
         """block-entry vertex of the block through which control enters the body of the try statement
